@@ -321,6 +321,9 @@ struct rp_h {
     /* wire out */
     unsigned char out[RP_WIREMAX];
     size_t out_n;
+    size_t out_calls, out_fail_from; /* sink calls so far; index of the first one that fails (SIZE_MAX: never) */
+    unsigned out_failed;
+    size_t out_maxper; /* > 0: the reply sink takes at most this many octets per call */
     /* backend */
     struct rp_becall call[8];
     int ncalls;
@@ -460,6 +463,19 @@ static ssize_t
 rp_sink_chunk(void *drv, const void *p, size_t n)
 {
     struct rp_h *h = drv;
+    /* a reply channel that is down: every write from the out_fail_from-th on is refused */
+    if (h->out_calls++ >= h->out_fail_from) {
+        /* what the library tried to send is kept for the record (an acknowledgement among it still counts) */
+        if (h->out_n + n <= RP_WIREMAX) {
+            memcpy(h->out + h->out_n, p, n);
+            h->out_n += n;
+        }
+        h->out_failed++;
+        return -EIO;
+    }
+    /* a chunk driver may take only part of what it is offered */
+    if (h->out_maxper && n > h->out_maxper)
+        n = h->out_maxper;
     if (h->out_n + n > RP_WIREMAX)
         return -ENOMEM;
     memcpy(h->out + h->out_n, p, n);
@@ -543,6 +559,13 @@ rp_setup(struct rp_h *h, int serial, int mem16, size_t blocksize)
     h->blocksize = blocksize;
     h->fail_alloc_at = -1;
     h->in_fail_at = SIZE_MAX;
+    h->out_calls = 0;
+    h->out_fail_from = SIZE_MAX;
+    h->out_failed = 0;
+    {
+        static const size_t pers[] = { 0, 0, 1, 0, 3, 7, 0, 64 };
+        h->out_maxper = blocksize > 1000 ? 0 : pers[(rp_setup_toggle / 2 + vh_unit_salt / 4) % 8];
+    }
     /* every second instance uses a slab-type allocator */
     if ((rp_setup_toggle++ + vh_unit_salt) & 1u)
         h->alloc = (BlockAllocator)MAKE_SLAB_BLOCKALLOC(h, rp_slab_alloc_cb, rp_free_cb, blocksize);
